@@ -5,7 +5,7 @@ from ..core import parse_sx, sx
 class C06(Prop):
     ID = "C06"
     THEOREMS = ["C06_bw_summary", "C06_bw_min_of_values", "C06_sweep_eq_rle_depth", "C06_bb_accepted_valid",
-                "C06_bb_chrom_summary", "C06_bb_summary", "C06_bb_item_count"]
+                "C06_bb_chrom_summary", "C06_bb_summary", "C06_bb_item_count", "C06_bb_file_summary", "C06_bb_summary_ieee"]
     RULE = ("bigBed: 1-6 chromosomes, per chromosome a start-sorted BED layout from the grammar disjoint/partly overlapping/nested/"
             "identical/zero-length/very-long-then-short/dense/gaps relative to the first resolution, options compress x items_per_slot"
             "{1,2,3,7,1024} x zoom modes x single/two pass, plus a malformed stream (unsorted, start>end, start>=length, unknown "
@@ -20,7 +20,7 @@ class C06(Prop):
     PER_CASE_TIMEOUT = 30.0
 
     def gen(self, rng, tier):
-        nbb, nbw = (3000, 500) if tier == "quick" else (30000, 5000)
+        nbb, nbw = (2000, 400) if tier == "quick" else (30000, 5000)
         for i in range(nbb):
             yield bedgen68.bb_case(rng, tier, zoom_mode=rng.choice(["none", "none", "manual", "auto", "auto-small"]),
                                    invalid=(i % 12 == 11), nqueries=1)
